@@ -62,6 +62,25 @@ theorem map_eq_of_inj {α β : Type} (f : α → β) : ∀ (l₁ l₂ : List α)
     subst this
     rw [map_eq_of_inj f t₁ t₂ h.2 (fun x hx y hy => inj x (List.mem_cons_of_mem _ hx) y (List.mem_cons_of_mem _ hy))]
 
+/-- Python's (stable) `sorted` on two elements -/
+theorem mergeSort_pair {α : Type} (le : α → α → Bool) (a b : α) :
+    [a, b].mergeSort le = if le a b then [a, b] else [b, a] := by
+  rw [List.mergeSort]
+  simp [List.MergeSort.Internal.splitInTwo, List.merge]
+
+/-- two lists that agree under `f` position by position agree under every `g` that `f` determines -/
+theorem map_eq_of_determines {α β γ : Type} (f : α → β) (g : α → γ) : ∀ (l₁ l₂ : List α),
+    l₁.map f = l₂.map f → (∀ a ∈ l₁, ∀ b ∈ l₂, f a = f b → g a = g b) → l₁.map g = l₂.map g
+  | [], [], _, _ => rfl
+  | [], _ :: _, h, _ => by simp at h
+  | _ :: _, [], h, _ => by simp at h
+  | a :: t₁, b :: t₂, h, det => by
+    simp only [List.map_cons, List.cons.injEq] at h
+    simp only [List.map_cons]
+    rw [det a (by simp) b (by simp) h.1,
+      map_eq_of_determines f g t₁ t₂ h.2
+        (fun x hx y hy => det x (List.mem_cons_of_mem _ hx) y (List.mem_cons_of_mem _ hy))]
+
 /-- the sorted key list of any iteration order of `set(l)` -/
 theorem sorted_keys_sorted (comps : List String) (s : List Name) :
     ((sortedDefinitions comps s).map (sortKey comps)).Pairwise (· ≤ ·) := by
